@@ -153,6 +153,7 @@ def check(src, rep):
     rep.extra["exhaustive"] = True
     # ---------------------------------------------------------------- R2: rejection
     _rejection(rep, pattern, mapping, parse, file, fn)
+    _history(rep, M, file)
     # ---------------------------------------------------------------- R3
     _eq_hash(rep, M, O, file)
     # ---------------------------------------------------------------- R4
@@ -412,6 +413,49 @@ def _roundtrip(rep, M, O, parse, lengths, file):
     if not bad:
         rep.ok("R4", f"{len(templates)} presence patterns x run lengths", f"{n} group tuples format to a reduced string that parses back to the same groups (premise: optional groups absent or non-zero)")
     rep.floor("templates", len(templates), 16)
+
+
+def _history(rep, M, file):
+    """parsing and comparing do not depend on what was parsed before: when the module keeps anything between calls, `Obis.from_string(s)` and `Obis(..) == s` are
+    interpreted (E-ABS) for a catalogue of good and malformed strings, alone and after every other string (also repeated), and the outcomes must agree"""
+    st = M.module_state(MOD)
+    if not st:
+        rep.ok("R2", "history independence", f"module {MOD} keeps nothing between calls (no module-level container is modified, no global or class attribute rebound, nothing memoised)")
+        return
+    import ast as _ast
+    from sa.abseval import AbsEval, AObj
+    S = ["1.7.0", "abc", "1-0:1.8.0", "1.8.0*1", "1.8.0*2", "", "1-2:", "0-0:96.1.0*255"]
+
+    def show(r):
+        if r[0] == "value" and isinstance(r[1], AObj):
+            return ("obis", repr(r[1].attrs.get("_groups", sorted(r[1].attrs.items()))))
+        return (r[0], repr(r[1]))
+
+    def run(A, expr):
+        try:
+            return ("value", A.eval(_ast.parse(expr, mode="eval").body, {}, MOD))
+        except Exception as ex:  # noqa
+            cls = getattr(ex, "cls", None)
+            return ("raise", cls) if cls else ("undecided", f"{type(ex).__name__}: {ex}")
+    exprs = [f"Obis.from_string({t!r})" for t in S] + [f"Obis.from_string('1.7.0') == {t!r}" for t in S]
+    alone = {e: show(run(AbsEval(M), e)) for e in exprs}
+    if any(v[0] == "undecided" for v in alone.values()):
+        rep.undecide(f"R2 history independence: {MOD} keeps state between calls ({st[0][0]} {st[0][1]}) and the parser is outside the interpreted subset: {[v for v in alone.values() if v[0] == 'undecided'][0][1]}"[:300])
+        return
+    n = 0
+    for a in exprs:
+        for b in exprs:
+            A = AbsEval(M)
+            run(A, a)
+            for rep_no in (1, 2):
+                got = show(run(A, b))
+                n += 1
+                if got != alone[b]:
+                    rep.violation("R2", f"{MOD}.Obis.from_string", "history-dependent", "the outcome of parsing / comparing a code depends on what was parsed before (state kept between calls): a malformed string is "
+                                  "accepted, or a code compares equal to a string that does not denote it", file, M.classes[(MOD, "Obis")].node.lineno,
+                                  witness=f"after {a}: {b} (evaluation {rep_no}) gives {got}, alone {alone[b]}"[:300])
+                    return
+    rep.ok("R2", "history independence", f"{n} two-step histories over {len(S)} good and malformed strings give the outcomes of the single calls")
 
 
 def thorough(src, rep):
